@@ -124,7 +124,24 @@ func zzC03Skeleton(kind int, alpha float64, monotone bool) {
 	}
 }
 
-func ZZ_C03_skeleton_log()      { zzC03Skeleton(0, 0.01, false) }
+// logarithmic mapping: the REAL Index on a symbolic value, math.Log uninterpreted; default and
+// non-default offsets (as decoders build them). Index must be the floor of Log(v)*multiplier+offset.
+func ZZ_C03_skeleton_log() {
+	zzvBound("logarithmic Index skeleton", "every positive finite float64 value (math.Log uninterpreted, its result free in [-1100,1100]); offsets {0, 12.5, -3.25}")
+	zzvExactFloatsOnly()
+	zzvSolverSeconds(600)
+	m0, _ := NewLogarithmicMapping(0.01)
+	m, _ := NewLogarithmicMappingWithGamma(m0.gamma, []float64{0, 12.5, -3.25}[zzvChoose("offset", 3)])
+	v := zzvFloat64("v")
+	zzvAssume(zzvAnd(v > 0, v < 1e300))
+	l := math.Log(v)
+	zzvAssume(zzvAnd(l >= -1100, l <= 1100))
+	zzvCover("value")
+	i := m.Index(v)
+	t := l*m.multiplier + m.indexOffset
+	zzvAssert("index-is-floor-of-scaled-log", zzvAnd(float64(i) <= t, zzvOr(t < float64(i)+1, zzvAnd(t < 0, t == float64(i)+1))))
+	zzvAssert("index-fits-int32", zzvAnd(i >= math.MinInt32, i <= math.MaxInt32))
+}
 func ZZ_C03_skeleton_linear()   { zzC03Skeleton(1, 0.01, false) }
 func ZZ_C03_skeleton_cubic()    { zzC03Skeleton(2, 0.01, false) }
 func ZZ_C03_skeleton_monotone_linear_T() { zzC03Skeleton(1, 0.01, true) }
